@@ -1284,7 +1284,11 @@ def read_href_element(et: ET.Element) -> Optional[str]:
     if et.text is None:
         return None
     # Split first, then decode: "%23" and "%3F" are part of the path
-    parsed_url = urllib.parse.urlsplit(et.text)
+    try:
+        parsed_url = urllib.parse.urlsplit(et.text)
+    except ValueError:
+        # e.g. "http://[bad": not a URL at all
+        return None
     # TODO(jelmer): Check that the hostname matches the local hostname?
     return urllib.parse.unquote(parsed_url.path)
 
